@@ -94,7 +94,7 @@ def nontrivial(prog, rg, out, qres):
 
 def run(chk, gate, status):
     n = 40 if chk.tier == 'quick' else 400
-    hi = 10 if chk.tier == 'quick' else 24
+    hi = 10 if chk.tier == 'quick' else 14     # exact rationals grow with the number of steps: more recipes, not longer ones
     cases = []
     for i in range(n):
         rng = random.Random(chk.seed * 100003 + 90000 + i)
